@@ -179,7 +179,7 @@ let () =
         let pages = list_of_tok nat_of_hex pages in
         let calls = list_of_tok cop_of_tok calls in
         let st = ref (int_of_string ("0x" ^ seed) land 0x3fffffff) in
-        let next () = st := (!st * 1103515245 + 12345) land 0x3fffffff; (!st lsr 8) land 0xff in
+        let next () = st := (!st * 1103515245 + 12345) land 0x3fffffff; ((!st lsr 8) land 0xffff) mod 12 in
         let choices = List.init (int_of_string ("0x" ^ steps)) (fun _ -> nat_of_int (next ())) in
         let (outs, fin) =
           match m with
